@@ -1588,3 +1588,108 @@ Proof.
   - intros s0 b. reflexivity.
   - eauto.
 Qed.
+
+(** * I. Node functions that set vars *)
+Lemma varSet_deferred s v x : status s = 1 -> varSet s v x = Ok (varSetD s v x).
+Proof.
+  intros Hst. unfold varSet, varSetD. destruct (_ && _ && _); [reflexivity|]. rewrite Hst. reflexivity.
+Qed.
+
+Lemma status_varSetD s v x : status (varSetD s v x) = status s.
+Proof. unfold varSetD. destruct (_ && _ && _); reflexivity. Qed.
+
+Lemma status_setAct s a : status (setAct s a) = status s.
+Proof. destruct a; cbn [setAct]; try apply status_varSetD. reflexivity. Qed.
+
+Lemma status_setsT acts : forall s, status (setsT acts s) = status s.
+Proof.
+  induction acts as [|a acts IH]; intros s; [reflexivity|]. cbn [setsT foldl]. fold (setsT acts (setAct s a)).
+  rewrite IH. apply status_setAct.
+Qed.
+
+Lemma applyActions_sets acts : forall s, status s = 1 -> (forall a, a ∈ acts -> is_fault a = false) ->
+  applyActions s acts = Ok (setsT acts s, None).
+Proof.
+  unfold applyActions. induction acts as [|a acts IH]; intros s Hst Hnf; [reflexivity|].
+  cbn [rfold setsT foldl]. fold (setsT acts (setAct s a)).
+  assert (Ha : is_fault a = false) by (apply Hnf; left).
+  assert (Hrest : forall a0, a0 ∈ acts -> is_fault a0 = false) by (intros; apply Hnf; right; assumption).
+  destruct a as [k|v x|v d]; [discriminate| |]; cbn [setAct].
+  - rewrite (varSet_deferred s v x Hst). cbn [rbind]. apply IH; [rewrite status_varSetD; exact Hst|exact Hrest].
+  - unfold varUpdate. rewrite (varSet_deferred s v _ Hst). cbn [rbind].
+    apply IH; [rewrite status_varSetD; exact Hst|exact Hrest].
+Qed.
+
+Lemma invoke_sets p s n w : status s = 1 -> (forall a, a ∈ actions_of p n w -> is_fault a = false) ->
+  invoke p s n w = Ok (setsT (actions_of p n w) s, None).
+Proof. intros Hst Hnf. unfold invoke. rewrite (applyActions_sets _ s Hst Hnf). reflexivity. Qed.
+
+(** ** frame: the sets only touch [pending] fields and [setDuring] *)
+Definition pend_eq (s t : state) : Prop := forall m, exists q, nd t m = nd s m <| pending := q |>.
+
+Lemma pend_eq_refl s : pend_eq s s.
+Proof. intros m. exists (pending (nd s m)). destruct (nd s m); reflexivity. Qed.
+
+Lemma pend_eq_trans s t u : pend_eq s t -> pend_eq t u -> pend_eq s u.
+Proof. intros H1 H2 m. destruct (H1 m) as [q1 E1], (H2 m) as [q2 E2]. exists q2. rewrite E2, E1. destruct (nd s m); reflexivity. Qed.
+
+Lemma pend_eq_varSetD s v x : pend_eq s (varSetD s v x).
+Proof.
+  unfold varSetD. destruct (_ && _ && _); [apply pend_eq_refl|]. intros m.
+  change (nd (_ <| setDuring := _ |>) m) with (nd (upd s v (set pending (fun _ => Some x))) m).
+  unfold nd, upd; cbn. rewrite nd_alter. destruct (decide (m = v)) as [->|].
+  - destruct (nodes s !! v) as [y|]; cbn; [exists (Some x); destruct y; reflexivity|exists None; reflexivity].
+  - exists (pending (default dummy (nodes s !! m))). destruct (default dummy (nodes s !! m)); reflexivity.
+Qed.
+
+Lemma pend_eq_setAct s a : pend_eq s (setAct s a).
+Proof. destruct a; cbn [setAct]; try apply pend_eq_varSetD. apply pend_eq_refl. Qed.
+
+Lemma pend_eq_setsT acts : forall s, pend_eq s (setsT acts s).
+Proof.
+  induction acts as [|a acts IH]; intros s; [apply pend_eq_refl|]. cbn [setsT foldl]. fold (setsT acts (setAct s a)).
+  eapply pend_eq_trans; [apply pend_eq_setAct|apply IH].
+Qed.
+
+(* the other fields *)
+Definition rest_eq (s t : state) : Prop :=
+  binds t = binds s /\ next t = next s /\ reg t = reg s /\ obs t = obs s /\ heap t = heap s /\ adj t = adj s /\
+  invq t = invq s /\ stabNum t = stabNum s /\ status t = status s /\ numNodes t = numNodes s /\
+  setRemoved t = setRemoved s /\ handlers t = handlers s /\ maxHeight t = maxHeight s /\ log t = log s /\
+  (forall m, has t m <-> has s m).
+
+Lemma rest_eq_refl s : rest_eq s s.
+Proof. repeat split; auto. Qed.
+
+Lemma rest_eq_trans s t u : rest_eq s t -> rest_eq t u -> rest_eq s u.
+Proof.
+  intros (A1&A2&A3&A4&A5&A6&A7&A8&A9&A10&A11&A12&A13&A14&A15) (B1&B2&B3&B4&B5&B6&B7&B8&B9&B10&B11&B12&B13&B14&B15).
+  repeat split; try congruence; intros; [apply A15, B15|apply B15, A15]; assumption.
+Qed.
+
+Lemma rest_eq_varSetD s v x : rest_eq s (varSetD s v x).
+Proof.
+  unfold varSetD. destruct (_ && _ && _); [apply rest_eq_refl|].
+  repeat split; try reflexivity; unfold has; cbn; intros H.
+  - destruct (decide (m = v)) as [->|]; [rewrite lookup_alter, fmap_is_Some in H|rewrite lookup_alter_ne in H by congruence]; exact H.
+  - destruct (decide (m = v)) as [->|]; [rewrite lookup_alter, fmap_is_Some|rewrite lookup_alter_ne by congruence]; exact H.
+Qed.
+
+Lemma rest_eq_setAct s a : rest_eq s (setAct s a).
+Proof. destruct a; cbn [setAct]; try apply rest_eq_varSetD. apply rest_eq_refl. Qed.
+
+Lemma rest_eq_setsT acts : forall s, rest_eq s (setsT acts s).
+Proof.
+  induction acts as [|a acts IH]; intros s; [apply rest_eq_refl|]. cbn [setsT foldl]. fold (setsT acts (setAct s a)).
+  eapply rest_eq_trans; [apply rest_eq_setAct|apply IH].
+Qed.
+
+(** what does not look at [pending] *)
+Lemma pend_proj {A} (g : node -> A) s t m : pend_eq s t -> (forall y q, g (y <| pending := q |>) = g y) -> g (nd t m) = g (nd s m).
+Proof. intros H Hg. destruct (H m) as [q ->]. apply Hg. Qed.
+
+Lemma pend_shape s t : pend_eq s t -> same_shape s t.
+Proof. intros H m. split; [apply (pend_proj nkind)|apply (pend_proj decl)]; auto. Qed.
+
+Lemma pend_valueOf s t a : pend_eq s t -> valueOf t a = valueOf s a.
+Proof. intros H. apply valueOf_shape; [apply pend_shape, H|]. intros m _. apply (pend_proj value); auto. Qed.
